@@ -1,6 +1,7 @@
 package harness
 
 import (
+	"strings"
 	"fmt"
 	"sort"
 	"time"
@@ -86,6 +87,38 @@ func c35Engine() *Engine {
 		if replayWork(rc.Log) {
 			res.Count("restart-replayed-wal", 1)
 		}
+		// which task logged a transaction group that no completed checkpoint covers?
+		// (what the restart will replay, i.e. re-append for variable records)
+		unchecked := "none-unchecked"
+		{
+			evs := decodeWalEvents(sr.log)
+			lastCk := -1
+			for i, e := range evs {
+				if e.kind == "ckdone" {
+					lastCk = i
+				}
+			}
+			who := map[string]bool{}
+			for _, e := range evs[lastCk+1:] {
+				if e.kind == "tgdata" {
+					if strings.HasPrefix(sr.sim.TaskName(sr.log[e.i].Task), "client") {
+						who["request"] = true
+					} else {
+						who["wal-writer"] = true
+					}
+				}
+			}
+			switch {
+			case lastCk < 0 && len(who) > 0:
+				unchecked = "no-checkpoint-at-all"
+			case who["request"] && who["wal-writer"]:
+				unchecked = "unchecked-tg-by-request+wal-writer"
+			case who["request"]:
+				unchecked = "unchecked-tg-by-request"
+			case who["wal-writer"]:
+				unchecked = "unchecked-tg-by-wal-writer"
+			}
+		}
 		// (1) same result for every query before and after
 		for _, b := range bs {
 			key := b.Key()
@@ -102,7 +135,7 @@ func c35Engine() *Engine {
 				} else if len(rc.Rows[key]) < len(sr.finalPre[key]) {
 					cls = "fewer-rows-after-restart"
 				}
-				mk("query-differs", "query-differs|"+cls+"|"+kindOf(b),
+				mk("query-differs", "query-differs|"+cls+"|"+kindOf(b)+"|"+unchecked,
 					fmt.Sprintf("bucket %s returns %s just before the shutdown completed and %s after the restart (first difference at row %d)", key, descRows(sr.finalPre[key]), descRows(rc.Rows[key]), i))
 			}
 		}
@@ -123,7 +156,7 @@ func c35Engine() *Engine {
 							return
 						}
 						if o.varCnt[e.id] > 1 {
-							mk("dup-after-restart", "dup-after-restart|variable", fmt.Sprintf("record id %d of %s is returned %d times after the restart", e.id, e.key, o.varCnt[e.id]))
+							mk("dup-after-restart", "dup-after-restart|variable|"+unchecked, fmt.Sprintf("record id %d of %s is returned %d times after the restart (WAL at shutdown: %s)", e.id, e.key, o.varCnt[e.id], unchecked))
 							return
 						}
 					} else {
